@@ -493,4 +493,157 @@ theorem rawConts_outM (cfg : Cfg) (hi : IndentWS cfg) (dt : Option Str) (st : AS
   rw [hdt, List.nil_append]
   exact rawContsL_expandL cfg hi _ wrapper kids hs
 
+/-! ### `pskel` refines `cskel` -/
+
+/-- all blocks are data blocks -/
+def allData : List Node → Prop
+  | [] => True
+  | .text false _ :: xs => allData xs
+  | _ => False
+
+mutual
+/-- the content of every script/style element consists of data blocks only (the tokenizer reports raw text as data) -/
+def RawData : Node → Prop
+  | .text _ _ => True
+  | .elem _ n _ _ _ kids => (isRawText n = true → allData kids) ∧ RawDataL kids
+def RawDataL : List Node → Prop
+  | [] => True
+  | x :: xs => RawData x ∧ RawDataL xs
+end
+
+theorem eraseWS_idem (s : Str) : eraseWS (eraseWS s) = eraseWS s := by
+  unfold eraseWS
+  rw [List.filter_filter]
+  simp
+
+theorem eraseWS_stripTail (s : Str) : eraseWS (stripTail s) = eraseWS s := by
+  unfold stripTail
+  apply eraseWS_rdropWhile
+  intro c hc
+  simp only [isIndCh, Bool.or_eq_true, decide_eq_true_eq] at hc
+  rcases hc with (rfl | rfl) | rfl <;> decide
+
+theorem canonL_skelL_pushText (s : Str) (r : List Node) :
+    canonL (skelL (pushText s r)) = pushText (eraseWS s) (canonL (skelL r)) := by
+  by_cases hs : s.isEmpty = true
+  · have : s = [] := by simpa using hs
+    subst this
+    simp [pushText, eraseWS]
+  · cases r with
+    | nil => simp [pushText, hs, skelL, skel, canonL]
+    | cons x r' =>
+      cases x with
+      | elem k n st sc ind kids => simp [pushText, hs, skelL, skel, canonL]
+      | text v e' =>
+        cases v with
+        | true => simp [pushText, hs, skelL, skel, canonL]
+        | false =>
+          have h1 : pushText s (Node.text false e' :: r') = Node.text false (s ++ e') :: r' := by
+            simp [pushText, hs]
+          rw [h1]
+          simp only [skelL, skel, canonL, eraseWS_append]
+          rw [pushText_pushText]
+
+mutual
+theorem canon_skel_canon : ∀ x : Node, canon (skel (canon x)) = canon (skel x)
+  | .text v s => by cases v <;> simp [canon]
+  | .elem k n st sc ind kids => by
+    simp only [canon, skel]
+    rw [canonL_skelL_canonL kids]
+theorem canonL_skelL_canonL : ∀ xs : List Node, canonL (skelL (canonL xs)) = canonL (skelL xs)
+  | [] => by simp [canonL, skelL]
+  | .text false s :: xs => by
+    simp only [canonL, skelL, skel]
+    rw [canonL_skelL_pushText, canonL_skelL_canonL xs]
+  | .text true s :: xs => by
+    simp only [canonL, skelL, skel]
+    rw [canonL_skelL_canonL xs]
+  | .elem k n st sc ind kids :: xs => by
+    simp only [canonL, skelL, skel]
+    rw [canonL_skelL_canonL kids, canonL_skelL_canonL xs]
+end
+
+/-- the canonical skeleton of data-only content is one block: its text without white space -/
+theorem canonL_skelL_allData : ∀ kids : List Node, allData kids →
+    canonL (skelL kids) = pushText (eraseWS (textCat kids)) []
+  | [], _ => by simp [skelL, canonL, textCat, eraseWS, pushText]
+  | .text false s :: xs, h => by
+    simp only [allData] at h
+    simp only [skelL, skel, canonL, textCat, eraseWS_append]
+    rw [canonL_skelL_allData xs h, pushText_pushText]
+  | .text true s :: xs, h => by simp [allData] at h
+  | .elem k n st sc ind kids :: xs, h => by simp [allData] at h
+
+mutual
+theorem canon_skel_pskelAt (pre : Bool) : ∀ x : Node, RawData x → canon (skel (pskelAt pre x)) = canon (skel x)
+  | .text true s, _ => by simp [pskelAt]
+  | .text false s, _ => by
+    cases pre <;> simp [pskelAt, skel, eraseWS_idem]
+  | .elem k n st sc ind kids, h => by
+    simp only [RawData] at h
+    simp only [pskelAt, skel, canon]
+    by_cases hr : (!pre && isRawText n) = true
+    · have hraw : isRawText n = true := by
+        cases hn : isRawText n with
+        | true => rfl
+        | false => simp [hn] at hr
+      simp only [hr, if_true, skelL, skel, canonL]
+      rw [canonL_skelL_allData kids (h.1 hraw), eraseWS_stripTail]
+    · simp only [hr, Bool.false_eq_true, if_false]
+      rw [canonL_skelL_pskelAtL (pre || isPre n) kids h.2]
+theorem canonL_skelL_pskelAtL (pre : Bool) : ∀ xs : List Node, RawDataL xs →
+    canonL (skelL (pskelAtL pre xs)) = canonL (skelL xs)
+  | [], _ => by simp [pskelAtL]
+  | x :: xs, h => by
+    simp only [RawDataL] at h
+    simp only [pskelAtL, skelL]
+    rw [canonL_cons, canonL_cons, canon_skel_pskelAt pre x h.1, canonL_skelL_pskelAtL pre xs h.2]
+end
+
+/-- **`cskel` is a function of `pskel`** (on trees whose script/style content is data only — every tree the tokenizer
+    can produce): erase the white space that `pskel` kept and canonicalise again -/
+theorem cskel_eq_of_pskel (t : Node) (h : RawData t) : cskel t = canon (skel (pskel t)) := by
+  unfold cskel pskel
+  rw [canon_skel_canon, canon_skel_pskelAt false t h]
+
+/-- trees with the same `pskel` have the same `cskel` -/
+theorem cskel_of_pskel (a b : Node) (ha : RawData a) (hb : RawData b) (h : pskel a = pskel b) : cskel a = cskel b := by
+  rw [cskel_eq_of_pskel a ha, cskel_eq_of_pskel b hb, h]
+
+theorem allData_rawText : ∀ (ks : List FNode) (raw : Str), rawText ks = some raw → allData (toNodeL ks)
+  | [], _, _ => trivial
+  | k :: ks, raw, h => by
+    obtain ⟨s, r', rfl, _, hr', _⟩ := rawText_cons k ks raw h
+    simp only [toNodeL, FNode.toNode, isVerb, allData]
+    exact allData_rawText ks r' hr'
+
+theorem rawDataL_allData : ∀ xs : List Node, allData xs → RawDataL xs
+  | [], _ => trivial
+  | .text false s :: xs, h => by
+    simp only [allData] at h
+    exact ⟨trivial, rawDataL_allData xs h⟩
+  | .text true s :: xs, h => by simp [allData] at h
+  | .elem k n st sc ind kids :: xs, h => by simp [allData] at h
+
+mutual
+/-- strict trees are of that kind -/
+theorem rawData_strict : ∀ u : FNode, u.Strict → RawData u.toNode
+  | .tok t, _ => by simp [FNode.toNode, RawData]
+  | .elem n st sc kids, h => by
+    simp only [FNode.Strict] at h
+    obtain ⟨_, _, _, _, _, hk⟩ := h
+    simp only [FNode.toNode, RawData]
+    by_cases hr : isRawText n = true
+    · simp only [hr, if_true] at hk
+      obtain ⟨raw, hraw, _⟩ := hk
+      exact ⟨fun _ => allData_rawText kids raw hraw, rawDataL_allData _ (allData_rawText kids raw hraw)⟩
+    · simp only [hr] at hk
+      exact ⟨fun e => absurd e hr, rawDataL_strict kids hk⟩
+theorem rawDataL_strict : ∀ ks : List FNode, StrictL ks → RawDataL (toNodeL ks)
+  | [], _ => trivial
+  | k :: ks, h => by
+    simp only [StrictL] at h
+    exact ⟨rawData_strict k h.1, rawDataL_strict ks h.2⟩
+end
+
 end AHP.Fmt
